@@ -7,7 +7,7 @@ CORR_MODULES = ["Sched.ListenerCorr"]
 PREFIX = "C33"
 CASE_TYPE = "C33_case"
 HARNESS = "lst"
-KNOWN = {1: "C33-data-available-no-fallback", 2: "C33-unmatch-no-listener", 3: "C33-incompatible-qos-repeated"}
+KNOWN = {}
 RULE = ("one case = one simulated two-participant scenario with RECORDING listeners (dust_dds::dds_async::*_listener "
         "traits) on three writers / publisher / participant 0 and three readers / subscriber / participant 1, each level "
         "with its own (listener installed?, mask) configuration; the script raises publication/subscription matched, "
@@ -16,8 +16,8 @@ RULE = ("one case = one simulated two-participant scenario with RECORDING listen
         "configurations (3 installed bits x 3 data-available mask bits x data-on-readers bit; the 64 (installed, enabled) "
         "combinations of every other status appear twice) + random per-entity configurations; distinct = distinct "
         "scenario line; non-trivial = some callback was recorded at publisher/subscriber or participant level")
-TRUSTED = ["theories/Sched/ListenerModel.v is a hand transcription of the dispatch chains of communication_methods.rs:299-356 "
-           "and discovery_methods.rs:313-455, 1148-1300, 1689-1830, 2431-2456",
+TRUSTED = ["theories/Sched/ListenerModel.v is a hand transcription of the dispatch chains of communication_methods.rs:306-372 "
+           "and discovery_methods.rs:313-455, 1162-1434, 1779-2040, 2596-2627",
            "harness/src/bin/lst.rs recording listeners; deadlines are crossed with `jump` (clock moved without stopping at "
            "intermediate timer deadlines) because the worker spins on delay(0) when the simulated clock stands exactly at "
            "last_write + period"]
@@ -26,7 +26,10 @@ ASSUMPTIONS = ["a level whose mask enables a status but which has no listener ob
                "C33_strict_reading_eq_unless_swallowed / C33_swallowed_differs",
                "InconsistentTopic is modelled and proved but not raised in the simulation (type lookup between the two simulated "
                "participants never completes); SampleLost / LivelinessLost / LivelinessChanged are never raised by the implementation",
-               "masks and listeners are set at creation; set_listener afterwards is not exercised (the chains read the same two fields)"]
+               "a lost match is modelled and exercised for the deletion of the matched endpoint (remove_discovered_reader / "
+               "_writer); the two other places where a match is lost (a matched endpoint whose QoS update is incompatible, "
+               "discovery_methods.rs:1204-1222 / 1818-1835, and the removal of a discovered participant, 2815-2860) are not "
+               "modelled: they raise the matched status without running a listener chain"]
 
 KINDS = ["IT", "ODM", "RDM", "OIQ", "RIQ", "SL", "SR", "DOR", "DA", "LL", "LC", "PM", "SM"]
 WKINDS = ["PM", "OIQ", "ODM"]
@@ -80,14 +83,15 @@ def corpus():
     none = (0, [])
     base = lambda: {"W": [none] * 3, "PUB": none, "P0": none, "R": [none] * 3, "SUB": none, "P1": none}
     out = []
-    # D30: no subscriber / participant fallback for data-available
+    # regression (C33-data-available-no-fallback, fixed 8c56825): subscriber / participant fallback for data-available
     c = base(); c["R"] = [(1, [])] * 3; c["SUB"] = (1, ["DA"]); c["P1"] = (1, ["DA"]); out.append(c)
     c = base(); c["R"] = [(1, [])] * 3; c["SUB"] = (1, []); c["P1"] = (1, ["DA"]); out.append(c)
     # a mask-enabled level without listener consumes the status (nil listener)
     c = base(); c["R"] = [(0, ["SR", "SM", "DA"])] * 3; c["SUB"] = (1, ["SR", "SM", "DA"]); c["P1"] = (1, KINDS); out.append(c)
     # everything at participant level
     c = base(); c["P0"] = (1, KINDS); c["P1"] = (1, KINDS); out.append(c)
-    # un-match with entity listeners
+    # regression (C33-unmatch-no-listener, fixed 16b74b1): un-match with entity listeners;
+    # (C33-incompatible-qos-repeated, fixed 1fc584d, is covered by every case: the counts are compared exactly)
     c = base(); c["W"] = [(1, ["PM"])] * 3; c["R"] = [(1, ["SM"])] * 3; out.append(c)
     # configuration reached through set_listener: listener removed / installed / mask replaced
     c = base(); c["W"] = [(1, ["PM"]), (0, ["OIQ"]), (1, [])]; c["R"] = [(0, []), (1, ["RIQ"]), (1, ["SM"])]
@@ -235,18 +239,19 @@ def distribution(cases, outs):
 
 MANIFEST = {
     "text": ("Machine-checked proof (Coq) over a model with one function per listener dispatch chain exactly as coded: for "
-             "sample rejected, requested/offered deadline missed, subscription/publication matched, requested/offered "
-             "incompatible QoS and inconsistent topic the chain equals the DDS rule (entity's listener if its mask enables "
-             "the status, else publisher's/subscriber's, else participant's, none if no mask enables it) for every "
-             "listener/mask configuration, and at most one listener is called per status change in every history. The "
-             "new-data chain equals the rule except that data-available is never offered to the subscriber's or "
-             "participant's listener, and the two un-match status changes reach no listener at all (both proved as exact "
-             "classes and reproduced on the real stack; known findings). The model is tied to the code by whole-stack "
-             "simulation with recording listeners at all three levels over all 128 configurations of the decision table "
-             "and random per-entity configurations, every recorded callback compared with the model inside Coq."),
+             "sample rejected, requested/offered deadline missed, subscription/publication matched (gained and lost), "
+             "requested/offered incompatible QoS, inconsistent topic and new data the chain equals the DDS rule (entity's "
+             "listener if its mask enables the status, else publisher's/subscriber's, else participant's, none if no mask "
+             "enables it; new data as data-on-readers on the subscriber when enabled there, as data-available otherwise) "
+             "for every listener/mask configuration, and exactly one or zero listener is called per status change in every "
+             "history, also when listeners are replaced in between. The model is tied to the code by whole-stack simulation "
+             "with recording listeners at all three levels over all 128 configurations of the decision table and random "
+             "per-entity configurations (half of them reached through set_listener), every recorded callback with its "
+             "multiplicity compared with the model inside Coq."),
     "note": ("Trusted: Coq kernel + vm_compute; hand model ListenerModel.v; the simulator harness with recording listeners. "
-             "Axioms: none. Known findings: C33-data-available-no-fallback, C33-unmatch-no-listener, "
-             "C33-incompatible-qos-repeated (the incompatible-QoS callback is repeated on every worker pass without a status "
-             "change). A mask-enabled level without listener object consumes the status (nil listener), as in DDS."),
+             "Axioms: none. The three defects found here are fixed in /repo (8c56825, 16b74b1, 1fc584d) and kept as "
+             "regression cases. A mask-enabled level without listener object consumes the status (nil listener), as in DDS. "
+             "Not covered: a match lost through an incompatible QoS update or the removal of a participant (no listener "
+             "chain in the code), InconsistentTopic in simulation."),
     "technique": "Coq proof (finite case analysis per chain, induction over histories) + whole-stack simulation correspondence",
 }
